@@ -7,3 +7,4 @@ for id in $(python3 -c "import json;print(' '.join(c['property_id'] for c in jso
   echo "$id rc=$rc $(( $(date +%s) - s ))s :: $(echo "$out" | tail -1)"
   echo "$out" | grep -E "^(VIOLATION|UNDECIDED)" | head -3
 done
+echo ALL-QUICK-DONE
